@@ -126,6 +126,41 @@ def cutLast (rl : RangeList) (last : Range) (cur : RangeList) (curNum removeNum 
   else (rl.dropLast ++ [(last.1, last.2 - removeNum)], cur ++ [(last.2 - removeNum + 1, last.2)],
         curNum + removeNum)
 
+theorem cutLast_fst (rl : RangeList) (last : Range) (cur : RangeList) (n r : Nat) :
+    (cutLast rl last cur n r).1 =
+      if r ≥ rangeNum last then rl.dropLast else rl.dropLast ++ [(last.1, last.2 - r)] := by
+  unfold cutLast; split <;> rfl
+theorem cutLast_snd_fst (rl : RangeList) (last : Range) (cur : RangeList) (n r : Nat) :
+    (cutLast rl last cur n r).2.1 =
+      if r ≥ rangeNum last then cur ++ [last] else cur ++ [(last.2 - r + 1, last.2)] := by
+  unfold cutLast; split <;> rfl
+theorem cutLast_snd_snd (rl : RangeList) (last : Range) (cur : RangeList) (n r : Nat) :
+    (cutLast rl last cur n r).2.2 = if r ≥ rangeNum last then n + rangeNum last else n + r := by
+  unfold cutLast; split <;> rfl
+
+theorem srcBody_eq (P : OutParams) (c p : Nat) (rl : RangeList) (st : LoopSt) :
+    srcBody P c p (rl, st) =
+      if st.dstIdx == P.dstMasterNum then R.ok (.done (rl, st)) else
+      if slotsNum rl ≤ P.srcFinal (c * 2 + p) then R.ok (.done (rl, st)) else
+      if P.need st.dstIdx < st.curNum then R.panic "remove_slots_from_src: need_num underflow" else
+      match rl.getLast? with
+      | none => R.panic "remove_slots_from_src: slots > average + src_r >= 0"
+      | some last =>
+        let t := cutLast rl last st.curSlots st.curNum
+          (min (P.need st.dstIdx - st.curNum) (slotsNum rl - P.srcFinal (c * 2 + p)))
+        if decide (t.2.2 ≥ P.need st.dstIdx) || decide (slotsNum t.1 ≤ P.srcFinal (c * 2 + p)) then
+          let st2 : LoopSt :=
+            if t.2.2 ≥ P.need st.dstIdx then
+              { dstIdx := st.dstIdx + 1, curSlots := [], curNum := 0,
+                out := st.out ++ [P.task c p st.dstIdx (rlNew t.2.1)] }
+            else
+              { dstIdx := st.dstIdx, curSlots := [], curNum := t.2.2,
+                out := st.out ++ [P.task c p st.dstIdx (rlNew t.2.1)] }
+          if slotsNum t.1 ≤ P.srcFinal (c * 2 + p) then R.ok (.done (t.1, st2)) else R.ok (.cont (t.1, st2))
+        else R.ok (.cont (t.1, { st with curSlots := t.2.1, curNum := t.2.2 })) := by
+  simp only [cutLast_fst, cutLast_snd_fst, cutLast_snd_snd]
+  rfl
+
 theorem srcWhile_succ (P : OutParams) (c p fuel : Nat) (rl : RangeList) (st : LoopSt) :
     srcWhile P c p (fuel + 1) rl st =
       if st.dstIdx == P.dstMasterNum then R.ok (rl, st) else
@@ -146,8 +181,30 @@ theorem srcWhile_succ (P : OutParams) (c p fuel : Nat) (rl : RangeList) (st : Lo
                 out := st.out ++ [P.task c p st.dstIdx (rlNew t.2.1)] }
           if slotsNum t.1 ≤ P.srcFinal (c * 2 + p) then R.ok (t.1, st2) else srcWhile P c p fuel t.1 st2
         else srcWhile P c p fuel t.1 { st with curSlots := t.2.1, curNum := t.2.2 } := by
-  rw [srcWhile]
-  rfl
+  unfold srcWhile
+  rw [iterate, srcBody_eq]
+  by_cases h1 : (st.dstIdx == P.dstMasterNum) = true
+  · rw [if_pos h1, if_pos h1]
+  · rw [if_neg h1, if_neg h1]
+    by_cases h2 : slotsNum rl ≤ P.srcFinal (c * 2 + p)
+    · rw [if_pos h2, if_pos h2]
+    · rw [if_neg h2, if_neg h2]
+      by_cases h3 : P.need st.dstIdx < st.curNum
+      · rw [if_pos h3, if_pos h3]
+      · rw [if_neg h3, if_neg h3]
+        cases rl.getLast? with
+        | none => rfl
+        | some last =>
+          dsimp only
+          generalize cutLast rl last st.curSlots st.curNum
+            (min (P.need st.dstIdx - st.curNum) (slotsNum rl - P.srcFinal (c * 2 + p))) = t
+          by_cases h4 : (decide (t.2.2 ≥ P.need st.dstIdx) || decide (slotsNum t.1 ≤ P.srcFinal (c * 2 + p))) = true
+          · rw [if_pos h4, if_pos h4]
+            by_cases h5 : slotsNum t.1 ≤ P.srcFinal (c * 2 + p)
+            · rw [if_pos h5, if_pos h5]
+            · rw [if_neg h5, if_neg h5]
+          · rw [if_neg h4, if_neg h4]
+
 
 theorem OutParams.given_fin (P : OutParams) {st : LoopSt} (h : st.dstIdx = P.dstMasterNum) :
     P.total ≤ P.given st := by
